@@ -715,4 +715,37 @@ theorem mkSegments_disjoint (L : Layout) (g : List Seg) (h : mkSegments L = some
         · have := sorted_get_lt _ hsorted (b + 1) a _ _ (by omega) b2 a1
           omega
 
+/-! ### the new timeline is strictly increasing -/
+
+theorem outPoints_sorted (out : List OObj) (acc : List Int) (h : StrictSorted acc) :
+    StrictSorted (outPoints out acc) := by
+  unfold outPoints
+  induction out generalizing acc with
+  | nil => exact h
+  | cons o os ih =>
+    simp only [List.foldl_cons]
+    apply ih
+    cases objPoint o with
+    | none => exact h
+    | some t => exact insInt_sorted t acc h
+
+theorem foldl_ins_sorted {α : Type} (f : α → Int) (l : List α) (acc : List Int) (h : StrictSorted acc) :
+    StrictSorted (l.foldl (fun acc x => insInt (f x) acc) acc) := by
+  induction l generalizing acc with
+  | nil => exact h
+  | cons a as ih => exact ih _ (insInt_sorted _ _ h)
+
+theorem shiftedPoints_sorted (points : List Int) (vs : List Visit) (acc : List Int) (h : StrictSorted acc) :
+    StrictSorted (shiftedPoints points vs acc) := by
+  unfold shiftedPoints
+  induction vs generalizing acc with
+  | nil => exact h
+  | cons v vs ih =>
+    simp only [List.foldl_cons]
+    exact ih _ (foldl_ins_sorted _ _ _ h)
+
+theorem variantPoints_sorted (points : List Int) (vs : List Visit) (out : List OObj) :
+    StrictSorted (variantPoints points vs out) :=
+  outPoints_sorted out _ (shiftedPoints_sorted points vs [] trivial)
+
 end C09
